@@ -165,6 +165,14 @@ def rule_f(repo, prop='C06'):
             elif isinstance(st, ast.AnnAssign) and isinstance(st.target, ast.Name):
                 module_names.add(st.target.id)
         n += 1
+        # memoising decorators keep results in hidden module-level state exactly like an explicit cache dict: every call with equal arguments hands out ONE object
+        for dec in fn.node.decorator_list:
+            d_ = dec.func if isinstance(dec, ast.Call) else dec
+            name_ = d_.attr if isinstance(d_, ast.Attribute) else getattr(d_, 'id', '')
+            if name_ in ('lru_cache', 'cache', 'cached', 'memoize', 'memoized', 'cached_property'):
+                findings.append(Finding(prop, 'R-f', fn.where, '@' + norm_text(dec, 80), f'`{fn.qual}` is memoised ({norm_text(dec, 60)}): calls with equal arguments return one and the same '
+                                        f'mutable object, so an in-place operation on one result (ortho, transpose(overwrite=True), a store into .cores) changes what the next call returns',
+                                        fn.file, fn.node.lineno))
         local = set(fn.params)
         declared_global = set()
         for nd in ast.walk(fn.node):
